@@ -48,6 +48,7 @@ func (s *SimpleStrategy) TryAcquire(ctx context.Context) (token core.StrategyTok
 		s.metricListener.AddSample(float64(inFlight))
 		return core.NewNotAcquiredStrategyToken(int(inFlight)), false
 	}
+	verifPoint("simple.between_check_and_add")
 	inFlight = atomic.AddInt32(s.inFlight, 1)
 	s.metricListener.AddSample(float64(inFlight))
 	f := func(ref *int32) func() {
